@@ -126,7 +126,7 @@ class Flow:
 
     # ---- helpers ----------------------------------------------------------------------------
     def site(self, node: ast.AST, tag: str = "") -> str:
-        return f"fresh:{self.f.qualname}:{tag or type(node).__name__}@{getattr(node, 'lineno', 0)}:{getattr(node, 'col_offset', 0)}"
+        return f"fresh:{self.f.qualname}:{tag or type(node).__name__}@{getattr(node, 'lineno', 0)}.{getattr(node, 'col_offset', 0)}"
 
     def av_type(self, av: AV) -> Optional[Ty]:
         return self.prog.av_type(self, av)
